@@ -1698,11 +1698,189 @@ func ruleCounterNumeric(r *Run) {
 					}
 				}
 			}
+			// the restore must RECOGNISE every name shape the namer writes: when the number is taken out
+			// of the name by a scan format, every format the namer builds names with has to fit it
+			for v := range res.Vals {
+				c, ok := v.(*ssa.Call)
+				if !ok || calleeName(c) != "fmt.Sscanf" || len(c.Call.Args) < 2 {
+					continue
+				}
+				scanF, ok := constString(c.Call.Args[1])
+				if !ok || !strings.Contains(scanF, "%d") {
+					continue
+				}
+				for _, nf := range mediaNameFormats(p, sl) {
+					okF, why := nameFitsScan(nf.call, nf.format, scanF)
+					r.Check("counter-numeric", shortName(fn)+":nextImageID:name-shape:"+nf.format, nf.call.Pos(), okF,
+						fmt.Sprintf("media names are built with %q in %s and their number is read back on Open with Sscanf(%q): %s", nf.format, shortName(nf.call.Parent()), scanF,
+							map[bool]string{true: "the shape is recognised", false: why + " — names of this shape are not counted, the counter restarts below a number already used and the next picture overwrites an existing media part"}[okF]))
+				}
+			}
 			r.Check("counter-numeric", shortName(fn)+":nextImageID:all-extensions", st.Pos(), ext == "",
 				"the restored image counter must not depend on the media part's extension ("+ext+"): generateSafeImageFileName writes .png, .jpeg, .gif and caller-supplied extensions, and a part that is skipped here is overwritten by the next image added after Open")
 		})
 	}
 	r.Min("image_counter_restores", n, 1)
+}
+
+type nameFormat struct {
+	call   *ssa.Call
+	format string
+}
+
+// mediaNameFormats: the Sprintf formats with a %d that build the name of a word/media/ part — in
+// the storing function itself or in the string-valued module helpers its key is computed by.
+func mediaNameFormats(p *Program, sl *slicer) []nameFormat {
+	var out []nameFormat
+	seenFn := map[*ssa.Function]bool{}
+	var scan func(fn *ssa.Function, depth int)
+	scan = func(fn *ssa.Function, depth int) {
+		if fn == nil || seenFn[fn] || depth > 3 || !p.inModule(fn) {
+			return
+		}
+		seenFn[fn] = true
+		allInstrs(fn, func(in ssa.Instruction) {
+			c, ok := in.(*ssa.Call)
+			if !ok {
+				return
+			}
+			if calleeName(c) == "fmt.Sprintf" && len(c.Call.Args) == 2 {
+				if f, ok := constString(c.Call.Args[0]); ok && strings.Contains(f, "%d") && depth > 0 {
+					out = append(out, nameFormat{c, f})
+				}
+			}
+		})
+	}
+	for _, ps := range collectPartStores(p) {
+		ks := ps.Key.norm()
+		if len(ks) == 0 || ks[0].Sym != nil || !strings.HasPrefix(ks[0].Const, "word/media/") {
+			continue
+		}
+		for v := range sl.Slice(ps.MU.Key).Vals {
+			c, ok := v.(*ssa.Call)
+			if !ok {
+				continue
+			}
+			if calleeName(c) == "fmt.Sprintf" && len(c.Call.Args) == 2 && c.Parent() == ps.Fn {
+				if f, ok := constString(c.Call.Args[0]); ok && strings.Contains(f, "%d") && !strings.HasPrefix(f, "rId") {
+					out = append(out, nameFormat{c, f})
+				}
+				continue
+			}
+			cal := staticCallee(c)
+			if cal == nil || !p.inModule(cal) || cal.Signature.Results().Len() != 1 || !isStringType(cal.Signature.Results().At(0).Type()) {
+				continue
+			}
+			// a namer: a string-valued helper that is handed a number
+			hasInt := false
+			for _, par := range cal.Params {
+				if b, ok := par.Type().Underlying().(*types.Basic); ok && b.Info()&types.IsInteger != 0 {
+					hasInt = true
+				}
+			}
+			if hasInt {
+				scan(cal, 1)
+			}
+		}
+	}
+	sort.Slice(out, func(i, j int) bool { return out[i].call.Pos() < out[j].call.Pos() })
+	return out
+}
+
+// nameFitsScan: a name built with Sprintf(format, …) is accepted by Sscanf(name, scanF, &n): the
+// literal text in front of the number agrees, and the literal the scan demands right after the
+// number is what the name has there — literally, or as the start of the string argument printed
+// there (an extension: constants beginning with that literal, filepath.Ext).
+func nameFitsScan(call *ssa.Call, format, scanF string) (bool, string) {
+	si := strings.Index(scanF, "%d")
+	fi := strings.Index(format, "%d")
+	if si < 0 || fi < 0 {
+		return true, ""
+	}
+	sPre, sPost := scanF[:si], scanF[si+2:]
+	if j := strings.Index(sPost, "%"); j >= 0 {
+		sPost = sPost[:j]
+	}
+	fPre, fRest := format[:fi], format[fi+2:]
+	if !strings.HasSuffix(fPre, sPre) {
+		return false, fmt.Sprintf("the text in front of the number is %q, the scan expects %q", fPre, sPre)
+	}
+	if sPost == "" || strings.HasPrefix(fRest, sPost) {
+		return true, ""
+	}
+	if strings.HasPrefix(fRest, "%s") || strings.HasPrefix(fRest, "%v") {
+		// which argument is printed there?
+		argNo := strings.Count(format[:fi+2], "%") - 2*strings.Count(format[:fi+2], "%%")
+		args := varargElems(call.Call.Args[1])
+		if argNo >= 0 && argNo < len(args) {
+			a := args[argNo]
+			if mi, ok := a.(*ssa.MakeInterface); ok {
+				a = mi.X
+			}
+			if startsWithLiteral(a, sPost, map[ssa.Value]bool{}) {
+				return true, ""
+			}
+		}
+		return false, fmt.Sprintf("after the number the scan expects %q, the name continues with a value that is not known to begin with it", sPost)
+	}
+	return false, fmt.Sprintf("after the number the scan expects %q, the name continues with %q", sPost, fRest)
+}
+
+// startsWithLiteral: every value v can take is a string beginning with lit (or, for ".", the
+// result of filepath.Ext / path.Ext, whose non-empty results begin with a dot).
+func startsWithLiteral(v ssa.Value, lit string, seen map[ssa.Value]bool) bool {
+	if seen[v] {
+		return true
+	}
+	seen[v] = true
+	switch x := v.(type) {
+	case *ssa.Const:
+		s, ok := constString(x)
+		return ok && strings.HasPrefix(s, lit)
+	case *ssa.Phi:
+		for _, e := range x.Edges {
+			if !startsWithLiteral(e, lit, seen) {
+				return false
+			}
+		}
+		return len(x.Edges) > 0
+	case *ssa.ChangeType:
+		return startsWithLiteral(x.X, lit, seen)
+	case *ssa.BinOp:
+		if x.Op == token.ADD {
+			return startsWithLiteral(x.X, lit, seen)
+		}
+	case *ssa.UnOp:
+		if al, ok := x.X.(*ssa.Alloc); ok && x.Op == token.MUL && al.Referrers() != nil {
+			n := 0
+			for _, u := range *al.Referrers() {
+				if st, ok := u.(*ssa.Store); ok && st.Addr == ssa.Value(al) {
+					n++
+					if !startsWithLiteral(st.Val, lit, seen) {
+						return false
+					}
+				}
+			}
+			return n > 0
+		}
+	case *ssa.Call:
+		switch calleeName(x) {
+		case "path/filepath.Ext", "path.Ext":
+			return lit == "."
+		case "strings.ToLower", "strings.ToUpper":
+			return startsWithLiteral(x.Call.Args[0], lit, seen)
+		}
+		if cal := staticCallee(x); cal != nil && len(cal.Blocks) > 0 && cal.Signature.Results().Len() == 1 {
+			rets := returnsOf(cal)
+			for _, ret := range rets {
+				if len(ret.Results) != 1 || !startsWithLiteral(ret.Results[0], lit, seen) {
+					return false
+				}
+			}
+			return len(rets) > 0
+		}
+	}
+	return false
 }
 
 // ---------------------------------------------------------------------------
